@@ -165,6 +165,7 @@ static void run(int tier, int prog) {
   mv_start(cur->W);
   h_maybe_custom_steal(prog, cur->W);
   h_mutex_init(&m, prog & 1); h_cond_init(&c0, (prog >> 1) & 1); h_cond_init(&c1, prog & 1);
+  static h_sentinel_t sent; h_sentinel_start(&sent, 5, prog);
   myth_thread_t th[8]; int nt = 0;
   switch (cur->fam) {
   case F_BB: {
@@ -219,6 +220,7 @@ static void run(int tier, int prog) {
   MV_CHECK(m.state == 0, "mutex state %ld at the end", (long)m.state);
   MV_CHECK(c0.sleep_q->head == 0 && c1.sleep_q->head == 0, "a thread is still queued on a condition variable at the end");
   mv_obs("fam=%d consumed=%d sum=%d turn=%d", cur->fam, consumed_n, consumed_sum, turn);
+  h_sentinel_finish(&sent);
   h_cond_epilogue(&c0, (prog >> 1) & 1); h_cond_epilogue(&c1, prog & 1); h_mutex_epilogue(&m, prog & 1);
   mv_finish();
 }
